@@ -90,8 +90,8 @@ func c3ArmSSA(c *Ctx, fn *ssa.Function, kv int64) *armInfo {
 			}
 			switch x := v.(type) {
 			case *ssa.TypeAssert:
-				if !seenAssert[x.AssertedType.String()] {
-					seenAssert[x.AssertedType.String()] = true
+				if !seenAssert[TStr(x.AssertedType)] {
+					seenAssert[TStr(x.AssertedType)] = true
 					ai.asserts = append(ai.asserts, x.AssertedType)
 				}
 				a.ops = append(a.ops, cop{kind: "assert", typ: x.AssertedType})
